@@ -72,6 +72,9 @@ func c18Scenarios(tier string) []c18Scen {
 		{name: "2 callers twice, N=3", descs: []c18Desc{{"op", nil, 3}}, calls: []c18Call{{"op", nil, 2}, {"op", a1, 2}}, bound: b},
 		{name: "matching + non-matching callers, N=1", descs: []c18Desc{{"op", a1b2, 1}}, calls: []c18Call{{"op", a1b2, 1}, {"op", a1, 1}, {"op", a2, 1}, {"other", a1b2, 1}}, bound: b},
 		{name: "two overlapping descriptions N=1+1, 3 callers", descs: []c18Desc{{"op", a1, 1}, {"op", nil, 1}}, calls: []c18Call{{"op", a1b2, 1}, {"op", a1, 1}, {"op", a1, 1}}, bound: b},
+		// the catch-all FIRST: once it is exhausted (and not yet pruned) it must not
+		// shadow the overlapping description behind it
+		{name: "catch-all first, overlapping description behind it, 3 callers", descs: []c18Desc{{"op", nil, 1}, {"op", a1, 1}}, calls: []c18Call{{"op", a1b2, 1}, {"op", a1, 1}, {"op", a1, 1}}, bound: b},
 		{name: "reader + 2 callers, N=1", descs: []c18Desc{{"op", nil, 1}}, calls: []c18Call{{"op", nil, 1}, {"op", nil, 1}}, reader: true, bound: b},
 		// two injections at the same time (same operation: one list is appended to twice)
 		{name: "two concurrent Adds of one operation + 1 caller", descs: []c18Desc{{"op", nil, 1}}, calls: []c18Call{{"op", nil, 1}}, adder: &c18Desc{"op", a2, 1}, adder2: &c18Desc{"op", map[string]string{"a": "3"}, 2}, bound: -1},
